@@ -171,6 +171,33 @@ pub fn draw_cfg(profile: &str, thorough: bool, rng: &mut Rng) -> RunCfg {
                 ],
             );
         }
+        "sticky" | "weak" => {
+            gen.w_map = 0;
+            gen.embed_pct = 0;
+            gen.subdoc_pct = 0;
+            gen.rich_any = false;
+            gen.seq_only = true;
+            if profile == "weak" {
+                gen.w_xml = 0;
+                gen.fmt_pct = 0;
+            }
+            if gen.w_text + gen.w_array + gen.w_xml == 0 {
+                gen.w_text = 2;
+                gen.w_array = 2;
+            }
+            cfg.w_special = rng.range(8, 18) as u32;
+            pick_faults(
+                rng,
+                &mut [
+                    (&mut cfg.w_dup, 2, 12),
+                    (&mut cfg.w_drop, 2, 10),
+                    (&mut cfg.w_hold, 2, 8),
+                    (&mut cfg.w_sync, 3, 12),
+                    (&mut cfg.w_gc, 2, 8),
+                    (&mut cfg.w_partition, 1, 5),
+                ],
+            );
+        }
         "lww" => {
             // a few hot keys on 1-3 maps (root, nested, XML attributes); partitions make concurrency
             gen.w_text = 0;
